@@ -221,6 +221,12 @@ ENGINES["simple"]["configs"]["quick"] += [simplecfg("gcounter_snap", "gcounter")
 ENGINES["map_or"]["configs"]["quick"] += [mapcfg("map_or_qsnap.cfg", 2, 1)]
 ENGINES["map_mv"]["configs"]["quick"] += [mapcfg("map_mv_qsnap.cfg", 1, 2)]
 
+# ---- reset_remove on states that hold pending removes with multi-actor contexts -------------------------
+ENGINES["map_mv"]["configs"]["quick"] += [mapcfg("map_mv_qreset3.cfg", 1, 1, INV_MAP, reset=True)]
+
+ENGINES["glist"]["configs"]["quick"] += [{"cfg": "glist_qdup.cfg", "module": "MC_List.tla", "flags": ["--persist", "--laws"], "invariants": INV_LIST}]
+ENGINES["map_mv"]["configs"]["quick"] += [mapcfg("map_mv_s_samectx4.cfg", 1, 2)]
+
 # ---- thorough tier = quick configs + larger exhaustive models ----------------------------------
 def _t(engine, extra):
     ENGINES[engine]["configs"]["thorough"] = list(ENGINES[engine]["configs"]["quick"]) + extra
